@@ -28,7 +28,7 @@ def run(c, replay):
         test = {"sessions": "TestVerif_C18_sessions", "options": "TestVerif_C18_options"}[layer]
         c.run_layer(b, test, layer, replay=replay, deadline_s=120)
         return
-    c.run_layer(b, "TestVerif_C18_sessions", "sessions", deadline_s=c.pick(50, 420), env={"GOMAXPROCS": "2"},
+    c.run_layer(b, "TestVerif_C18_sessions", "sessions", deadline_s=c.pick(90, 420), env={"GOMAXPROCS": "2"},
                 rule="BFS over chains of <= 3 sessions on a real file: states = distinct (implementation, model, budget) states, "
                      "transitions = executed steps; after every step: returned text = model, file bytes = model; at every session "
                      "start: entries reachable by navigation = entries of the file; non-trivial = open-session states with a stored entry or an edit")
